@@ -46,7 +46,10 @@ def run_real(chk: Check, behaviours: list[dict], label: str, spec: dict | None =
     for i, b in enumerate(behaviours):
         sc = b["sc"]
         pkg, corep = LAYOUT[sc["core"]]
-        jobs.append({"id": f"{label}{i}", "base": str(base), "spec": spec, "pkg": pkg, "core": corep, "existing": sc["existing"], "force": sc["force"], "pp": sc["pp"], "cwd": sc["cwd"], "fault": sc["fault"]})
+        job = {"id": f"{label}{i}", "base": str(base), "spec": b.get("spec") or spec, "pkg": pkg, "core": corep, "existing": b.get("variant") or sc["existing"], "force": sc["force"], "pp": sc["pp"], "cwd": sc["cwd"], "fault": sc["fault"]}
+        if b.get("spec_old"):
+            job["spec_old"] = b["spec_old"]
+        jobs.append(job)
     res = core.parallel_py(chk.scratch, "harness.w_genrun", jobs, timeout=1500)
     traces = []
     for b, j, r in zip(behaviours, jobs, res):
@@ -64,7 +67,7 @@ def run_real(chk: Check, behaviours: list[dict], label: str, spec: dict | None =
             if k not in seen:
                 seen.add(k)
                 cev.append(e)
-        traces.append({"id": j["id"], "sc": b["sc"], "result": r["result"], "fault_fired": bool(r["fault_fired"]), "ev": cev, "expect": {"result": b["result"], "viol": sorted(b["viol"])}, "_raw": r, "_job": j})
+        traces.append({"id": j["id"], "sc": b["sc"], "result": r["result"], "fault_fired": bool(r["fault_fired"]), "ev": cev, "expect": {"result": b["result"], "viol": sorted(b["viol"])}, "_raw": r, "_job": j, "_big": bool(b.get("spec"))})
     return traces
 
 
@@ -99,7 +102,11 @@ def judge(chk: Check, traces: list[dict], label: str, clauses: tuple[str, ...]) 
             loc["pp"] = t["sc"]["pp"]
             loc["cwd"] = t["sc"]["cwd"]
             examples = [e for e in t["_raw"]["events"] if e.get("cls") == loc.get("cls")][:2] + [e for e in t["_raw"]["delta"] if e.get("cls") == loc.get("cls")][:2]
-            chk.fail(f["clause"], loc, {"sc": t["sc"]}, json.dumps(examples)[:400] + " err=" + t["_raw"].get("err", "")[:120])
+            if t["_job"]["existing"] != t["sc"]["existing"]:
+                loc["variant"] = t["_job"]["existing"]
+            if t.get("_big"):
+                loc["big"] = True
+            chk.fail(f["clause"], loc, {"sc": t["sc"], "variant": t["_job"]["existing"], "big": bool(t.get("_big"))}, json.dumps(examples)[:400] + " err=" + t["_raw"].get("err", "")[:120])
     if nd > 3:
         chk.note_drift(f"{nd} runs in total whose result differs from the model's")
     t = traces[len(traces) // 2]
@@ -124,16 +131,44 @@ def run(chk: Check) -> None:
     if not thorough:
         beh = [b for b in beh if (not b["sc"]["pp"]) or b["sc"]["fault"] in ("none", "postprocess", "diff")]
         beh = [b for b in beh if not (b["sc"]["pp"] and b["sc"]["core"] == "toplevel" and b["sc"]["cwd"] == "elsewhere")]
-    traces = run_real(chk, beh, "r")
+    # concrete variants of the model's `partial` existing tree (what is missing matters to the code, not to the model)
+    extra = []
+    for b in beh:
+        sc = b["sc"]
+        if sc["existing"] == "partial" and sc["fault"] == "none" and not sc["pp"]:
+            for variant in ("missing:root_init", "missing:models_init", "missing:client", "emptied"):
+                extra.append(dict(b, variant=variant))
+        if sc["existing"] == "equal" and sc["fault"] == "none" and not sc["pp"] and sc["cwd"] == "elsewhere":
+            extra.append(dict(b, variant="userfile"))
+    # one large document (> 200 emitted .py files) for post-processed writing runs: tools that switch strategy on size
+    big = big_document(230)
+    for b in beh:
+        sc = b["sc"]
+        if sc["pp"] and sc["fault"] == "none" and sc["cwd"] == "elsewhere" and sc["existing"] in ("absent", "equal") and (sc["force"] or sc["existing"] == "absent") and sc["core"] != "toplevel":
+            if thorough or (sc["existing"] == "absent" and sc["force"]):
+                extra.append(dict(b, spec=big))
+    traces = run_real(chk, beh + extra, "r")
     judge(chk, traces, "behaviours", ("C10.",))
     chk.require(chk.cov["clauses_checked"].get("faults_fired", 0) > 50, "fault injection hardly ever fired")
     chk.cov["exhaustive"] = True
 
 
+def big_document(n: int) -> dict:
+    d = features.build(["many_errors"])
+    for i in range(n):
+        d["components"]["schemas"][f"Bulk{i:03d}"] = features.obj({"v": {"type": "string"}, "n": {"type": "integer"}})
+    return d
+
+
 def replay(chk: Check, path: str) -> None:
     rec = json.loads(open(path).read())
     sc = rec["scenario"]["sc"]
-    traces = run_real(chk, [{"sc": sc, "result": "?", "viol": []}], "replay")
+    b = {"sc": sc, "result": "?", "viol": []}
+    if rec["scenario"].get("variant") and rec["scenario"]["variant"] != sc["existing"]:
+        b["variant"] = rec["scenario"]["variant"]
+    if rec["scenario"].get("big"):
+        b["spec"] = big_document(230)
+    traces = run_real(chk, [b], "replay")
     judge(chk, traces, "replay", ("C10.", "C09."))
     for f in chk.fails:
         print("REPLAY-FAIL", f["clause"], json.dumps(f["locus"]), f["detail"][:300])
